@@ -1,4 +1,5 @@
 import LoraVerif.Model.Device
+import LoraVerif.Model.History
 import LoraVerif.Lemmas.ExceptLemmas
 /-!
 # C06 — uplink frame counters never repeat within a session
@@ -13,7 +14,24 @@ On the MAC model plus the Class A receive procedure of both front-ends (`Model/D
   oversized frames, timeout) the counter has advanced by exactly one, or the session is expired;
 * `fault_fcnt`: the same for a radio fault after the frame was handed to the radio;
 * `classC_fcnt_mono`: a Class C reception never decreases it.
-Hence successive uplinks of one session carry strictly increasing counters until expiry.
+Hence successive uplinks of one session carry strictly increasing counters until expiry — and that
+"hence" is a theorem over ALL histories (`Model/History.lean`), by induction over the event list:
+* `history_fcnt_strict` (`FcntStrict`): along every history — any frames in RX1/RX2, Class C
+  receptions between uplinks, radio faults after 0, 1 or 2 windows, ADR/data-rate calls, from ANY
+  start state, any random stream — each uplink handed to the radio carries a counter strictly above
+  the previous uplink of the same session, until the device reports `SessionExpired`; a (re-)join
+  starts a new session;
+* `history_no_counter_reuse`: any two uplinks of one session with no reported expiry between them
+  carry different (strictly increasing) 32-bit counters;
+* `history_fcnt_32bit`: the counter never wraps — every uplink counter is ≤ 2^32 − 1;
+* `history_session_id`: along every join-free stretch of a history the session keeps its DevAddr and
+  key identities and every uplink carries that DevAddr — so strictly increasing counters mean no
+  (key, DevAddr, FCnt) triple is ever used twice;
+* `join_starts_fresh`: after ABP activation / an OTAA attempt the MAC holds exactly
+  `Session.new` of the activation (counters 0, keys of the accepted JoinAccept) or is still joining.
+Observation (not claimed by the property text, and FALSE on the model as on the code): once
+`SessionExpired` has been reported, a further `send` is not refused — it builds another frame with
+counter 2^32 − 1 (`FcntStrict` makes no claim after expiry; see `send_after_expiry_reuses`).
 -/
 open Model
 
@@ -212,14 +230,1007 @@ theorem fault_fcnt (m : MacState) (s : Session) (hm : joinedWith m s) :
   · exact Or.inl ⟨a, b⟩
   · exact Or.inr ⟨a, b⟩
 
+/-- `Mac::send` on a joined MAC: the frame carries the session's counter and the counter stands -/
+theorem macSend_fcnt {σ} (g : Rng σ) (m : MacState) (s : Session) (hm : joinedWith m s) (data : List Nat) (port : Nat)
+    (conf : Bool) (rs rs' : σ) (o : Option SendOut) (m' : MacState)
+    (h : macSend g m data port conf rs = .ok (o, m', rs')) :
+    ∃ out s', o = some out ∧ out.frame.fcnt = s.fcntUp ∧ out.frame.devAddr = s.devAddr ∧ joinedWith m' s' ∧
+      s'.fcntUp = s.fcntUp := by
+  unfold macSend at h
+  unfold joinedWith at hm
+  simp only [hm] at h
+  obtain ⟨⟨desc, s1⟩, hpb, h⟩ := Except.bind_eq_ok h
+  obtain ⟨dr, _, h⟩ := Except.bind_eq_ok h
+  obtain ⟨⟨tx, region, rs1⟩, _, h⟩ := Except.bind_eq_ok h
+  obtain ⟨pw, _, h⟩ := Except.bind_eq_ok h
+  obtain ⟨⟨rx1, rx2⟩, _, h⟩ := Except.bind_eq_ok h
+  simp only [pure, Except.pure, Except.ok.injEq, Prod.mk.injEq] at h
+  obtain ⟨rfl, rfl, rfl⟩ := h
+  obtain ⟨h1, h2, _, h4⟩ := send_uses_fcnt _ _ _ _ _ _ _ _ hpb
+  exact ⟨_, s1, rfl, h1, h4, rfl, h2⟩
+
+/-- a MAC that is not joined refuses to send and stays as it is -/
+theorem macSend_notJoined {σ} (g : Rng σ) (m : MacState) (hm : ∀ s, m.st ≠ .joined s) (data : List Nat) (port : Nat)
+    (conf : Bool) (rs rs' : σ) (o : Option SendOut) (m' : MacState)
+    (h : macSend g m data port conf rs = .ok (o, m', rs')) : o = none ∧ m' = m := by
+  unfold macSend at h
+  split at h
+  · rename_i s hs; exact absurd hs (hm s)
+  · simp only [pure, Except.pure, Except.ok.injEq, Prod.mk.injEq] at h
+    exact ⟨h.1.symm, h.2.1.symm⟩
+
+/-- any frame handled by `handle_rx`/`handle_rxc` on a joined MAC leaves it joined and never
+decreases the uplink counter -/
+theorem macHandleRx_fcnt_mono (m : MacState) (s : Session) (hm : joinedWith m s) (v : RxView) (mp : Nat) (snr : Int)
+    (cc : Bool) (o : Option RxOut) (m' : MacState) (h : macHandleRx m v mp snr cc = .ok (o, m')) :
+    ∃ s', joinedWith m' s' ∧ s.fcntUp ≤ s'.fcntUp ∧ (s.fcntUp ≤ 0xFFFFFFFF → s'.fcntUp ≤ 0xFFFFFFFF) := by
+  unfold macHandleRx at h
+  unfold joinedWith at hm
+  simp only [hm] at h
+  cases v with
+  | data d =>
+    simp only at h
+    obtain ⟨⟨out, s1, cfg1, reg1⟩, hs, h⟩ := Except.bind_eq_ok h
+    simp only [pure, Except.pure, Except.ok.injEq, Prod.mk.injEq] at h
+    obtain ⟨rfl, rfl⟩ := h
+    refine ⟨s1, rfl, ?_⟩
+    rcases handleRx_fcnt _ _ _ _ _ _ _ _ _ _ _ hs with ⟨_, h2⟩ | ⟨_, _, h3, _⟩ | ⟨_, h2, _⟩ <;> omega
+  | garbage =>
+    simp only [pure, Except.pure, Except.ok.injEq, Prod.mk.injEq] at h
+    obtain ⟨rfl, rfl⟩ := h
+    exact ⟨s, hm, Nat.le_refl _, id⟩
+  | joinAccept j =>
+    simp only [pure, Except.pure, Except.ok.injEq, Prod.mk.injEq] at h
+    obtain ⟨rfl, rfl⟩ := h
+    exact ⟨s, hm, Nat.le_refl _, id⟩
+
+/-- a Class C reception cannot create a session -/
+theorem macHandleRxc_notJoined (m : MacState) (hm : ∀ s, m.st ≠ .joined s) (v : RxView) (mp : Nat) (snr : Int)
+    (o : Option RxOut) (m' : MacState) (h : macHandleRx m v mp snr true = .ok (o, m')) : m' = m := by
+  unfold macHandleRx at h
+  split at h
+  · rename_i s hs; exact absurd hs (hm s)
+  · simp only [if_true, pure, Except.pure, Except.ok.injEq, Prod.mk.injEq] at h; exact h.2.symm
+  · simp only [if_true, pure, Except.pure, Except.ok.injEq, Prod.mk.injEq] at h; exact h.2.symm
+
+theorem window_fcnt_mono (m : MacState) (s : Session) (hm : joinedWith m s) (f : Option (RxView × Int)) (mp : Nat)
+    (o : Option RxOut) (m' : MacState) (h : window m f mp = .ok (o, m')) :
+    ∃ s', joinedWith m' s' ∧ s.fcntUp ≤ s'.fcntUp ∧ (s.fcntUp ≤ 0xFFFFFFFF → s'.fcntUp ≤ 0xFFFFFFFF) := by
+  obtain ⟨s', hj, hc⟩ := window_fcnt m s hm f mp o m' h
+  refine ⟨s', hj, ?_⟩
+  rcases hc with ⟨_, e⟩ | ⟨_, _, _, e, _⟩ | ⟨_, _, _, e, _⟩ <;> omega
+
+/-- the receive procedure cut short by a radio fault: still joined, counter not decreased -/
+theorem faultedCycle_fcnt_mono (m : MacState) (s : Session) (hm : joinedWith m s) (k : Nat) (rx1 rx2 : Option (RxView × Int))
+    (mp1 mp2 : Nat) (m' : MacState) (h : faultedCycle m k rx1 rx2 mp1 mp2 = .ok m') :
+    ∃ s', joinedWith m' s' ∧ s.fcntUp ≤ s'.fcntUp ∧ (s.fcntUp ≤ 0xFFFFFFFF → s'.fcntUp ≤ 0xFFFFFFFF) := by
+  unfold faultedCycle at h
+  split at h
+  · cases Except.pure_eq_ok h; exact ⟨s, hm, Nat.le_refl _, id⟩
+  · obtain ⟨⟨o1, m1⟩, h1, h⟩ := Except.bind_eq_ok h
+    cases Except.pure_eq_ok h
+    exact window_fcnt_mono m s hm rx1 mp1 o1 _ h1
+  · obtain ⟨⟨o1, m1⟩, h1, h⟩ := Except.bind_eq_ok h
+    obtain ⟨s1, hj1, hle1, hb1⟩ := window_fcnt_mono m s hm rx1 mp1 o1 m1 h1
+    cases o1 with
+    | some o => cases Except.pure_eq_ok h; exact ⟨s1, hj1, hle1, hb1⟩
+    | none =>
+      simp only at h
+      obtain ⟨⟨o2, m2⟩, h2, h⟩ := Except.bind_eq_ok h
+      cases Except.pure_eq_ok h
+      obtain ⟨s2, hj2, hle2, hb2⟩ := window_fcnt_mono m1 s1 hj1 rx2 mp2 o2 _ h2
+      exact ⟨s2, hj2, by omega, fun hh => hb2 (hb1 hh)⟩
+
+/-- the counter after a radio fault, with what the front-end reports -/
+theorem fault_fcnt_resp (m : MacState) (s : Session) (hm : joinedWith m s) :
+    ∃ s', joinedWith (faultAfterTx m) s' ∧
+      ((s'.fcntUp = s.fcntUp + 1 ∧ faultExpired m = false) ∨ (s'.fcntUp = s.fcntUp ∧ faultExpired m = true)) := by
+  obtain ⟨s', hj, hc⟩ := macRx2Complete_fcnt m s hm
+  refine ⟨s', hj, ?_⟩
+  unfold faultExpired
+  rcases hc with ⟨_, b, c⟩ | ⟨_, b, c⟩
+  · left; exact ⟨b, by simpa using c⟩
+  · right; exact ⟨b, by simp [c]⟩
+
+/-! ## histories -/
+
+/-- an event that (re)starts activation: the session, if any, ends here -/
+def isJoin : Ev → Bool
+  | .joinAbp _ _ _ | .joinOtaa _ _ _ _ _ => true
+  | _ => false
+
+def expiredResp (r : Option Response) : Bool := r == some .sessionExpired
+
+/-- **the counters of the uplinks handed to the radio, read off a history's trace** (event, output).
+`b = some lo`: the next uplink of the running session must carry a counter ≥ `lo`; after an uplink
+with counter `n` the bound is `n + 1` — strictly increasing — until the device reports
+`SessionExpired` (`b = none`: the property makes no claim about a device that is used on after it
+reported expiry) or a (re-)join starts a new session at 0. -/
+def FcntStrict : Option Nat → List (Ev × Out) → Prop
+  | _, [] => True
+  | b, (ev, out) :: rest =>
+    match out with
+    | .up o resp _ =>
+      (∀ lo, b = some lo → lo ≤ o.frame.fcnt) ∧
+        FcntStrict (if expiredResp resp then none else some (o.frame.fcnt + 1)) rest
+    | _ => if isJoin ev then FcntStrict (some 0) rest else FcntStrict b rest
+
+/-- the bound `b` is respected by the state: a live session's counter is at least `lo` -/
+def Rel (m : MacState) (b : Option Nat) : Prop := ∀ lo, b = some lo → ∀ s, m.st = .joined s → lo ≤ s.fcntUp
+
+theorem rel_of_joined {m : MacState} {s : Session} (hj : joinedWith m s) {lo : Nat} (h : lo ≤ s.fcntUp) : Rel m (some lo) := by
+  intro lo' e s' hs'
+  cases e
+  unfold joinedWith at hj
+  rw [hj] at hs'
+  cases hs'
+  exact h
+
+theorem rel_mono {m m' : MacState} {b : Option Nat}
+    (h : ∀ s', m'.st = .joined s' → ∃ s, m.st = .joined s ∧ s.fcntUp ≤ s'.fcntUp) (hr : Rel m b) : Rel m' b := by
+  intro lo e s' hs'
+  obtain ⟨s, hs, hle⟩ := h s' hs'
+  exact Nat.le_trans (hr lo e s hs) hle
+
+theorem macSetAdr_st (m : MacState) (on : Bool) (s' : Session) (h : (macSetAdr m on).st = .joined s') :
+    ∃ s, m.st = .joined s ∧ s.fcntUp = s'.fcntUp := by
+  unfold macSetAdr at h
+  cases hst : m.st with
+  | joined s =>
+    cases on
+    · simp only [hst] at h
+      cases h
+      exact ⟨s, rfl, rfl⟩
+    · simp only [hst] at h
+      exact ⟨s, rfl, by cases h; rfl⟩
+  | otaa o => cases on <;> simp [hst] at h
+  | unjoined => cases on <;> simp [hst] at h
+
+/-- what one step establishes, by output -/
+def stepPost (ev : Ev) (b : Option Nat) (m' : MacState) : Out → Prop
+  | .up o resp _ => (∀ lo, b = some lo → lo ≤ o.frame.fcnt) ∧ Rel m' (if expiredResp resp then none else some (o.frame.fcnt + 1))
+  | _ => if isJoin ev then Rel m' (some 0) else Rel m' b
+
+/-- one step, seen from the counter bound -/
+theorem step_rel {σ} (g : Rng σ) (m m' : MacState) (rs rs' : σ) (ev : Ev) (out : Out) (b : Option Nat) (hr : Rel m b)
+    (h : step g (m, rs) ev = .ok ((m', rs'), out)) : stepPost ev b m' out := by
+  have rel0 : ∀ m'', Rel m'' (some 0) := fun m'' lo e s _ => by cases e; exact Nat.zero_le _
+  unfold step at h
+  cases ev with
+  | joinAbp da nwk app =>
+    simp only [pure, Except.pure, Except.ok.injEq, Prod.mk.injEq] at h
+    obtain ⟨⟨rfl, _⟩, rfl⟩ := h
+    simp only [stepPost, isJoin, if_true]
+    exact rel0 _
+  | joinOtaa fault rx1 rx2 mp1 mp2 =>
+    simp only at h
+    obtain ⟨⟨o, m1, s1⟩, _, h⟩ := Except.bind_eq_ok h
+    cases fault with
+    | some k =>
+      simp only at h
+      obtain ⟨m2, _, h⟩ := Except.bind_eq_ok h
+      simp only [pure, Except.pure, Except.ok.injEq, Prod.mk.injEq] at h
+      obtain ⟨⟨rfl, _⟩, rfl⟩ := h
+      simp only [stepPost, isJoin, if_true]
+      exact rel0 _
+    | none =>
+      simp only at h
+      obtain ⟨⟨r, dl, m2⟩, _, h⟩ := Except.bind_eq_ok h
+      simp only [pure, Except.pure, Except.ok.injEq, Prod.mk.injEq] at h
+      obtain ⟨⟨rfl, _⟩, rfl⟩ := h
+      simp only [stepPost, isJoin, if_true]
+      exact rel0 _
+  | setAdr on =>
+    simp only [pure, Except.pure, Except.ok.injEq, Prod.mk.injEq] at h
+    obtain ⟨⟨rfl, _⟩, rfl⟩ := h
+    simp only [stepPost, isJoin, Bool.false_eq_true, if_false]
+    exact rel_mono (fun s' hs' => by obtain ⟨s, h1, h2⟩ := macSetAdr_st m on s' hs'; exact ⟨s, h1, Nat.le_of_eq h2⟩) hr
+  | setDr dr =>
+    simp only [pure, Except.pure, Except.ok.injEq, Prod.mk.injEq] at h
+    obtain ⟨⟨rfl, _⟩, rfl⟩ := h
+    simp only [stepPost, isJoin, Bool.false_eq_true, if_false]
+    exact rel_mono (fun s' hs' => ⟨s', hs', Nat.le_refl _⟩) hr
+  | rxc v snr mp =>
+    simp only at h
+    obtain ⟨rf, _, h⟩ := Except.bind_eq_ok h
+    obtain ⟨⟨o, m1⟩, hrx, h⟩ := Except.bind_eq_ok h
+    simp only [pure, Except.pure, Except.ok.injEq, Prod.mk.injEq] at h
+    obtain ⟨⟨rfl, _⟩, rfl⟩ := h
+    simp only [stepPost, isJoin, Bool.false_eq_true, if_false]
+    cases hst : m.st with
+    | joined s =>
+      obtain ⟨s1, hj1, hle, _⟩ := macHandleRx_fcnt_mono m s hst v mp snr true o m1 hrx
+      refine rel_mono (fun s' hs' => ⟨s, hst, ?_⟩) hr
+      · unfold joinedWith at hj1; rw [hj1] at hs'; cases hs'; exact hle
+    | otaa o' =>
+      have := macHandleRxc_notJoined m (by intro s e; rw [hst] at e; cases e) v mp snr o m1 hrx
+      subst this; exact hr
+    | unjoined =>
+      have := macHandleRxc_notJoined m (by intro s e; rw [hst] at e; cases e) v mp snr o m1 hrx
+      subst this; exact hr
+  | uplink data fport conf fault rx1 rx2 mp1 mp2 =>
+    simp only at h
+    obtain ⟨⟨o, m1, rs1⟩, hsend, hb⟩ := Except.bind_eq_ok h
+    clear h
+    have h := hb
+    clear hb
+    simp only at h
+    by_cases hjn : ∃ s, m.st = .joined s
+    · obtain ⟨s, hst⟩ := hjn
+      obtain ⟨out1, s1, rfl, hf, _, hj1, hf1⟩ := macSend_fcnt g m s hst data fport conf rs rs1 o m1 hsend
+      simp only at h
+      cases fault with
+      | some k =>
+        simp only at h
+        obtain ⟨m2, hfc, h⟩ := Except.bind_eq_ok h
+        simp only [pure, Except.pure, Except.ok.injEq, Prod.mk.injEq] at h
+        obtain ⟨⟨rfl, _⟩, rfl⟩ := h
+        obtain ⟨s2, hj2, hle2, _⟩ := faultedCycle_fcnt_mono m1 s1 hj1 k rx1 rx2 mp1 mp2 m2 hfc
+        obtain ⟨s3, hj3, hc3⟩ := fault_fcnt_resp m2 s2 hj2
+        simp only [stepPost]
+        refine ⟨fun lo e => by rw [hf]; exact hr lo e s hst, ?_⟩
+        rcases hc3 with ⟨e3, hx⟩ | ⟨e3, hx⟩
+        · simp only [hx, Bool.false_eq_true, if_false, expiredResp]
+          have : ((none : Option Response) == some Response.sessionExpired) = false := rfl
+          simp only [this, Bool.false_eq_true, if_false]
+          exact rel_of_joined hj3 (by omega)
+        · simp only [hx, if_true, expiredResp, beq_self_eq_true]
+          intro lo e; cases e
+      | none =>
+        simp only at h
+        obtain ⟨⟨r, dl, m2⟩, hcy, h⟩ := Except.bind_eq_ok h
+        simp only [pure, Except.pure, Except.ok.injEq, Prod.mk.injEq] at h
+        obtain ⟨⟨rfl, _⟩, rfl⟩ := h
+        obtain ⟨s2, hj2, hc2⟩ := cycle_fcnt m1 s1 hj1 rx1 rx2 mp1 mp2 r dl m2 hcy
+        simp only [stepPost]
+        refine ⟨fun lo e => by rw [hf]; exact hr lo e s hst, ?_⟩
+        rcases hc2 with ⟨_, e2, hne⟩ | ⟨_, _, he⟩
+        · have : expiredResp (some r) = false := by
+            unfold expiredResp
+            simp only [beq_eq_false_iff_ne, ne_eq, Option.some.injEq]
+            exact hne
+          simp only [this, Bool.false_eq_true, if_false]
+          exact rel_of_joined hj2 (by omega)
+        · subst he
+          simp only [expiredResp, beq_self_eq_true, if_true]
+          intro lo e; cases e
+    · have hnj : ∀ s, m.st ≠ .joined s := fun s e => hjn ⟨s, e⟩
+      obtain ⟨rfl, rfl⟩ := macSend_notJoined g m hnj data fport conf rs rs1 o m1 hsend
+      simp only [pure, Except.pure, Except.ok.injEq, Prod.mk.injEq] at h
+      obtain ⟨⟨rfl, _⟩, rfl⟩ := h
+      simp only [stepPost, isJoin, Bool.false_eq_true, if_false]
+      exact hr
+
+theorem run_fcnt_strict {σ} (g : Rng σ) (m : MacState) (rs : σ) (evs : List Ev) (ms' : MacState × σ) (outs : List Out)
+    (b : Option Nat) (hr : Rel m b) (h : run g (m, rs) evs = .ok (ms', outs)) : FcntStrict b (evs.zip outs) := by
+  induction evs generalizing m rs b outs with
+  | nil => simp [FcntStrict]
+  | cons ev rest ih =>
+    unfold run at h
+    obtain ⟨⟨⟨m1, rs1⟩, o⟩, hstep, h⟩ := Except.bind_eq_ok h
+    obtain ⟨⟨ms2, os⟩, hrun, h⟩ := Except.bind_eq_ok h
+    simp only [pure, Except.pure, Except.ok.injEq, Prod.mk.injEq] at h
+    obtain ⟨rfl, rfl⟩ := h
+    have hs := step_rel g m m1 rs rs1 ev o b hr hstep
+    simp only [List.zip_cons_cons]
+    unfold FcntStrict
+    cases o with
+    | up so resp dl =>
+      simp only [stepPost] at hs ⊢
+      exact ⟨hs.1, ih m1 rs1 os _ hs.2 hrun⟩
+    | done => simp only [stepPost] at hs ⊢; split <;> rename_i hj <;> simp only [hj, if_true, if_false, Bool.false_eq_true] at hs <;> exact ih m1 rs1 os _ hs hrun
+    | notJoined => simp only [stepPost] at hs ⊢; split <;> rename_i hj <;> simp only [hj, if_true, if_false, Bool.false_eq_true] at hs <;> exact ih m1 rs1 os _ hs hrun
+    | join jo resp => simp only [stepPost] at hs ⊢; split <;> rename_i hj <;> simp only [hj, if_true, if_false, Bool.false_eq_true] at hs <;> exact ih m1 rs1 os _ hs hrun
+    | rxc rf ro => simp only [stepPost] at hs ⊢; split <;> rename_i hj <;> simp only [hj, if_true, if_false, Bool.false_eq_true] at hs <;> exact ih m1 rs1 os _ hs hrun
+
+/-- **over every history, the uplink counters handed to the radio within one session are strictly
+increasing until the device reports `SessionExpired`** — whatever frames are received in RX1/RX2 or
+between uplinks (Class C), wherever radio faults strike, from ANY start state (in particular the
+initial one), for every random stream.  A (re-)join starts a new session. -/
+theorem history_fcnt_strict {σ} (g : Rng σ) (m : MacState) (rs : σ) (evs : List Ev) (ms' : MacState × σ)
+    (outs : List Out) (h : run g (m, rs) evs = .ok (ms', outs)) : FcntStrict (some 0) (evs.zip outs) :=
+  run_fcnt_strict g m rs evs ms' outs (some 0) (fun _ e _ _ => by cases e; exact Nat.zero_le _) h
+
+/-- … and from a state with a live session: every uplink carries at least that session's counter -/
+theorem history_fcnt_from {σ} (g : Rng σ) (m : MacState) (s : Session) (hm : joinedWith m s) (rs : σ) (evs : List Ev)
+    (ms' : MacState × σ) (outs : List Out) (h : run g (m, rs) evs = .ok (ms', outs)) :
+    FcntStrict (some s.fcntUp) (evs.zip outs) :=
+  run_fcnt_strict g m rs evs ms' outs _ (rel_of_joined hm (Nat.le_refl _)) h
+
+/-- position `k` of a trace neither (re-)joins nor reports expiry -/
+def Quiet (t : List (Ev × Out)) (k : Nat) : Prop :=
+  ∀ e o, t[k]? = some (e, o) → isJoin e = false ∧ ∀ so d, o ≠ .up so (some .sessionExpired) d
+
+theorem fcntStrict_bound (t : List (Ev × Out)) (lo j : Nat) (e : Ev) (so : SendOut) (r : Option Response)
+    (d : Option (Nat × List Nat)) (h : FcntStrict (some lo) t) (hj : t[j]? = some (e, .up so r d))
+    (hq : ∀ k, k < j → Quiet t k) : lo ≤ so.frame.fcnt := by
+  induction t generalizing lo j with
+  | nil => simp at hj
+  | cons x rest ih =>
+    obtain ⟨e0, o0⟩ := x
+    cases j with
+    | zero =>
+      simp only [List.getElem?_cons_zero, Option.some.injEq, Prod.mk.injEq] at hj
+      obtain ⟨rfl, rfl⟩ := hj
+      unfold FcntStrict at h
+      exact h.1 lo rfl
+    | succ j =>
+      simp only [List.getElem?_cons_succ] at hj
+      have hq0 := hq 0 (Nat.succ_pos _) e0 o0 (by simp)
+      have hq' : ∀ k, k < j → Quiet rest k := by
+        intro k hk e' o' hk'
+        exact hq (k + 1) (by omega) e' o' (by simpa using hk')
+      unfold FcntStrict at h
+      cases o0 with
+      | up so0 r0 d0 =>
+        simp only at h
+        have hne : expiredResp r0 = false := by
+          unfold expiredResp
+          cases r0 with
+          | none => rfl
+          | some r0 =>
+            simp only [beq_eq_false_iff_ne, ne_eq, Option.some.injEq]
+            intro e; subst e
+            exact hq0.2 so0 d0 rfl
+        simp only [hne, Bool.false_eq_true, if_false] at h
+        have := ih (so0.frame.fcnt + 1) j h.2 hj hq'
+        have := h.1 lo rfl
+        omega
+      | done => simp only [hq0.1, Bool.false_eq_true, if_false] at h; exact ih lo j h hj hq'
+      | notJoined => simp only [hq0.1, Bool.false_eq_true, if_false] at h; exact ih lo j h hj hq'
+      | join jo jr => simp only [hq0.1, Bool.false_eq_true, if_false] at h; exact ih lo j h hj hq'
+      | rxc rf ro => simp only [hq0.1, Bool.false_eq_true, if_false] at h; exact ih lo j h hj hq'
+
+theorem fcntStrict_drop (t : List (Ev × Out)) (b : Option Nat) (i : Nat) (e : Ev) (so : SendOut) (r : Option Response)
+    (d : Option (Nat × List Nat)) (h : FcntStrict b t) (hi : t[i]? = some (e, .up so r d))
+    (hr : r ≠ some .sessionExpired) : FcntStrict (some (so.frame.fcnt + 1)) (t.drop (i + 1)) := by
+  induction t generalizing b i with
+  | nil => simp at hi
+  | cons x rest ih =>
+    obtain ⟨e0, o0⟩ := x
+    cases i with
+    | zero =>
+      simp only [List.getElem?_cons_zero, Option.some.injEq, Prod.mk.injEq] at hi
+      obtain ⟨rfl, rfl⟩ := hi
+      unfold FcntStrict at h
+      have hne : expiredResp r = false := by
+        unfold expiredResp
+        cases r with
+        | none => rfl
+        | some r => simpa using hr
+      simp only [hne, Bool.false_eq_true, if_false] at h
+      simpa using h.2
+    | succ i =>
+      simp only [List.getElem?_cons_succ] at hi
+      unfold FcntStrict at h
+      simp only [List.drop_succ_cons]
+      cases o0 with
+      | up so0 r0 d0 => exact ih _ i h.2 hi
+      | done => simp only at h; split at h <;> exact ih _ i h hi
+      | notJoined => simp only at h; split at h <;> exact ih _ i h hi
+      | join jo jr => simp only at h; split at h <;> exact ih _ i h hi
+      | rxc rf ro => simp only at h; split at h <;> exact ih _ i h hi
+
+/-- **no counter is ever reused within a session.**  Take any history and any two uplinks of it, the
+`i`-th and the `j`-th event (`i < j`), with no (re-)join and no reported `SessionExpired` from `i` up
+to (excluding) `j`: the later frame carries a strictly larger 32-bit counter — so no
+(session key, DevAddr, FCnt) triple is handed to the radio twice. -/
+theorem history_no_counter_reuse {σ} (g : Rng σ) (m : MacState) (rs : σ) (evs : List Ev) (ms' : MacState × σ)
+    (outs : List Out) (h : run g (m, rs) evs = .ok (ms', outs)) (i j : Nat) (hij : i < j)
+    (ei ej : Ev) (oi oj : SendOut) (ri rj : Option Response) (di dj : Option (Nat × List Nat))
+    (hi : (evs.zip outs)[i]? = some (ei, .up oi ri di)) (hj : (evs.zip outs)[j]? = some (ej, .up oj rj dj))
+    (hq : ∀ k, i ≤ k → k < j → Quiet (evs.zip outs) k) : oi.frame.fcnt < oj.frame.fcnt := by
+  have hs := history_fcnt_strict g m rs evs ms' outs h
+  have hri : ri ≠ some .sessionExpired := fun e => (hq i (Nat.le_refl _) hij ei _ hi).2 oi di (by rw [e])
+  have hd := fcntStrict_drop _ _ i ei oi ri di hs hi hri
+  have hj' : ((evs.zip outs).drop (i + 1))[j - (i + 1)]? = some (ej, .up oj rj dj) := by
+    rw [List.getElem?_drop]; rw [show i + 1 + (j - (i + 1)) = j by omega]; exact hj
+  have := fcntStrict_bound _ _ _ ej oj rj dj hd hj' (by
+    intro k hk e' o' hk'
+    rw [List.getElem?_drop] at hk'
+    exact hq (i + 1 + k) (by omega) (by omega) e' o' hk')
+  omega
+
+/-! ## a (re-)join starts a fresh session -/
+
+theorem otaaAccept_st (m m' : MacState) (j : RxJoinAccept) (h : otaaAccept m j = .ok m') :
+    m'.st = .joined (Session.new j.devAddr j.nwkKey j.appKey) := by
+  unfold otaaAccept at h
+  obtain ⟨region, _, h⟩ := Except.bind_eq_ok h
+  obtain ⟨d, _, h⟩ := Except.bind_eq_ok h
+  cases Except.pure_eq_ok h
+  rfl
+
+/-- a receive window while joining: nothing happens, or an authentic JoinAccept creates the session -/
+theorem window_otaa (m : MacState) (o : OtaaState) (hm : m.st = .otaa o) (f : Option (RxView × Int)) (mp : Nat)
+    (ro : Option RxOut) (m' : MacState) (h : window m f mp = .ok (ro, m')) :
+    (m' = m ∧ ro = none) ∨
+    (∃ j snr, f = some (.joinAccept j, snr) ∧ j.micOk = true ∧ ro.isSome = true ∧
+      m'.st = .joined (Session.new j.devAddr j.nwkKey j.appKey)) := by
+  unfold window at h
+  cases f with
+  | none =>
+    simp only [pure, Except.pure, Except.ok.injEq, Prod.mk.injEq] at h
+    exact Or.inl ⟨h.2.symm, h.1.symm⟩
+  | some f =>
+    obtain ⟨v, snr⟩ := f
+    simp only at h
+    obtain ⟨⟨o1, m1⟩, hrx, h⟩ := Except.bind_eq_ok h
+    unfold macHandleRx at hrx
+    simp only [hm, Bool.false_eq_true, if_false] at hrx
+    cases v with
+    | joinAccept j =>
+      simp only at hrx
+      by_cases hmic : j.micOk = true
+      · simp only [hmic, if_true] at hrx
+        obtain ⟨m2, hacc, hrx⟩ := Except.bind_eq_ok hrx
+        simp only [pure, Except.pure, Except.ok.injEq, Prod.mk.injEq] at hrx
+        obtain ⟨rfl, rfl⟩ := hrx
+        have : (Response.joinSuccess == Response.noUpdate) = false := by decide
+        simp only [this, Bool.false_eq_true, if_false, pure, Except.pure, Except.ok.injEq, Prod.mk.injEq] at h
+        obtain ⟨rfl, rfl⟩ := h
+        exact Or.inr ⟨j, snr, rfl, hmic, rfl, otaaAccept_st _ _ _ hacc⟩
+      · simp only [hmic, Bool.false_eq_true, if_false, pure, Except.pure, Except.ok.injEq, Prod.mk.injEq] at hrx
+        obtain ⟨rfl, rfl⟩ := hrx
+        simp only [beq_self_eq_true, if_true, pure, Except.pure, Except.ok.injEq, Prod.mk.injEq] at h
+        exact Or.inl ⟨h.2.symm, h.1.symm⟩
+    | garbage =>
+      simp only [pure, Except.pure, Except.ok.injEq, Prod.mk.injEq] at hrx
+      obtain ⟨rfl, rfl⟩ := hrx
+      simp only [beq_self_eq_true, if_true, pure, Except.pure, Except.ok.injEq, Prod.mk.injEq] at h
+      exact Or.inl ⟨h.2.symm, h.1.symm⟩
+    | data d =>
+      simp only [pure, Except.pure, Except.ok.injEq, Prod.mk.injEq] at hrx
+      obtain ⟨rfl, rfl⟩ := hrx
+      simp only [beq_self_eq_true, if_true, pure, Except.pure, Except.ok.injEq, Prod.mk.injEq] at h
+      exact Or.inl ⟨h.2.symm, h.1.symm⟩
+
+theorem macJoinOtaa_st {σ} (g : Rng σ) (m m' : MacState) (rs rs' : σ) (o : JoinOut)
+    (h : macJoinOtaa g m rs = .ok (o, m', rs')) : ∃ ot, m'.st = .otaa ot := by
+  unfold macJoinOtaa at h
+  simp only at h
+  obtain ⟨dr, _, h⟩ := Except.bind_eq_ok h
+  obtain ⟨⟨tx, region, rs1⟩, _, h⟩ := Except.bind_eq_ok h
+  obtain ⟨pw, _, h⟩ := Except.bind_eq_ok h
+  obtain ⟨⟨rx1, rx2⟩, _, h⟩ := Except.bind_eq_ok h
+  simp only [pure, Except.pure, Except.ok.injEq, Prod.mk.injEq] at h
+  obtain ⟨_, rfl, _⟩ := h
+  exact ⟨_, rfl⟩
+
+/-- the session a join attempt can end in: none, or the one the authentic JoinAccept defines -/
+def FreshFrom (rx1 rx2 : Option (RxView × Int)) (m' : MacState) : Prop :=
+  (∃ ot, m'.st = .otaa ot) ∨
+  ∃ j snr, (rx1 = some (.joinAccept j, snr) ∨ rx2 = some (.joinAccept j, snr)) ∧ j.micOk = true ∧
+    m'.st = .joined (Session.new j.devAddr j.nwkKey j.appKey)
+
+theorem classACycle_otaa (m : MacState) (o : OtaaState) (hm : m.st = .otaa o) (rx1 rx2 : Option (RxView × Int)) (mp1 mp2 : Nat)
+    (r : Response) (dl : Option (Nat × List Nat)) (m' : MacState) (h : classACycle m rx1 rx2 mp1 mp2 = .ok (r, dl, m')) :
+    FreshFrom rx1 rx2 m' := by
+  unfold classACycle at h
+  obtain ⟨⟨o1, m1⟩, h1, h⟩ := Except.bind_eq_ok h
+  rcases window_otaa m o hm rx1 mp1 o1 m1 h1 with ⟨rfl, rfl⟩ | ⟨j, snr, hf, hmic, hsome, hst⟩
+  · simp only at h
+    obtain ⟨⟨o2, m2⟩, h2, h⟩ := Except.bind_eq_ok h
+    rcases window_otaa m1 o hm rx2 mp2 o2 m2 h2 with ⟨rfl, rfl⟩ | ⟨j, snr, hf, hmic, hsome, hst⟩
+    · simp only [macRx2Complete, hm, pure, Except.pure, Except.ok.injEq, Prod.mk.injEq] at h
+      obtain ⟨_, _, rfl⟩ := h
+      exact Or.inl ⟨o, hm⟩
+    · cases o2 with
+      | none => cases hsome
+      | some oo =>
+        simp only [pure, Except.pure, Except.ok.injEq, Prod.mk.injEq] at h
+        obtain ⟨_, _, rfl⟩ := h
+        exact Or.inr ⟨j, snr, Or.inr hf, hmic, hst⟩
+  · cases o1 with
+    | none => cases hsome
+    | some oo =>
+      simp only [pure, Except.pure, Except.ok.injEq, Prod.mk.injEq] at h
+      obtain ⟨_, _, rfl⟩ := h
+      exact Or.inr ⟨j, snr, Or.inl hf, hmic, hst⟩
+
+theorem faultedCycle_otaa (m : MacState) (o : OtaaState) (hm : m.st = .otaa o) (k : Nat) (rx1 rx2 : Option (RxView × Int))
+    (mp1 mp2 : Nat) (m' : MacState) (h : faultedCycle m k rx1 rx2 mp1 mp2 = .ok m') : FreshFrom rx1 rx2 m' := by
+  unfold faultedCycle at h
+  split at h
+  · cases Except.pure_eq_ok h; exact Or.inl ⟨o, hm⟩
+  · obtain ⟨⟨o1, m1⟩, h1, h⟩ := Except.bind_eq_ok h
+    cases Except.pure_eq_ok h
+    rcases window_otaa m o hm rx1 mp1 o1 _ h1 with ⟨rfl, rfl⟩ | ⟨j, snr, hf, hmic, _, hst⟩
+    · exact Or.inl ⟨o, hm⟩
+    · exact Or.inr ⟨j, snr, Or.inl hf, hmic, hst⟩
+  · obtain ⟨⟨o1, m1⟩, h1, h⟩ := Except.bind_eq_ok h
+    rcases window_otaa m o hm rx1 mp1 o1 m1 h1 with ⟨rfl, rfl⟩ | ⟨j, snr, hf, hmic, hsome, hst⟩
+    · simp only at h
+      obtain ⟨⟨o2, m2⟩, h2, h⟩ := Except.bind_eq_ok h
+      cases Except.pure_eq_ok h
+      rcases window_otaa m1 o hm rx2 mp2 o2 _ h2 with ⟨rfl, rfl⟩ | ⟨j, snr, hf, hmic, _, hst⟩
+      · exact Or.inl ⟨o, hm⟩
+      · exact Or.inr ⟨j, snr, Or.inr hf, hmic, hst⟩
+    · cases o1 with
+      | none => cases hsome
+      | some oo =>
+        cases Except.pure_eq_ok h
+        exact Or.inr ⟨j, snr, Or.inl hf, hmic, hst⟩
+
+/-- what a join event leaves behind -/
+def JoinPost (m' : MacState) : Ev → Prop
+  | .joinAbp da nwk app => m'.st = .joined (Session.new da nwk app)
+  | .joinOtaa _ rx1 rx2 _ _ => FreshFrom rx1 rx2 m'
+  | _ => True
+
+/-- **a (re-)join starts at zero with the key identities of the activation**: after an ABP
+activation the session is exactly `Session.new` of the given address and keys; after an OTAA attempt
+the MAC is either still joining or holds exactly the session defined by an authentic JoinAccept heard
+in RX1 or RX2 — counters 0, no downlink counter, nothing pending, and the keys derived from that
+JoinAccept; nothing of the previous session survives. -/
+theorem join_starts_fresh {σ} (g : Rng σ) (m m' : MacState) (rs rs' : σ) (ev : Ev) (out : Out)
+    (h : step g (m, rs) ev = .ok ((m', rs'), out)) : JoinPost m' ev := by
+  unfold step at h
+  cases ev with
+  | joinAbp da nwk app =>
+    simp only [pure, Except.pure, Except.ok.injEq, Prod.mk.injEq] at h
+    obtain ⟨⟨rfl, _⟩, _⟩ := h
+    rfl
+  | joinOtaa fault rx1 rx2 mp1 mp2 =>
+    simp only [JoinPost] at h ⊢
+    obtain ⟨⟨o, m1, s1⟩, hj, h⟩ := Except.bind_eq_ok h
+    obtain ⟨ot, hot⟩ := macJoinOtaa_st g m m1 rs s1 o hj
+    cases fault with
+    | some k =>
+      simp only at h
+      obtain ⟨m2, hfc, h⟩ := Except.bind_eq_ok h
+      simp only [pure, Except.pure, Except.ok.injEq, Prod.mk.injEq] at h
+      obtain ⟨⟨rfl, _⟩, _⟩ := h
+      exact faultedCycle_otaa m1 ot hot k rx1 rx2 mp1 mp2 _ hfc
+    | none =>
+      simp only at h
+      obtain ⟨⟨r, dl, m2⟩, hcy, h⟩ := Except.bind_eq_ok h
+      simp only [pure, Except.pure, Except.ok.injEq, Prod.mk.injEq] at h
+      obtain ⟨⟨rfl, _⟩, _⟩ := h
+      exact classACycle_otaa m1 ot hot rx1 rx2 mp1 mp2 r dl _ hcy
+  | _ => trivial
+
+/-! ## within a session address and keys never change -/
+
+/-- the identity of a session: address and key identities -/
+def sid (s : Session) : Nat × Nat × Nat := (s.devAddr, s.nwkKey, s.appKey)
+
+theorem rx2Complete_sid (s : Session) (cfg : Config) (r : RegionId) : sid (rx2Complete s cfg r).2.1 = sid s := by
+  unfold rx2Complete
+  by_cases h1 : (s.fcntUp == 0xFFFFFFFF) = true
+  · simp [h1]
+  · simp only [h1, Bool.false_eq_true, if_false]
+    by_cases h2 : cfg.adrEnabled = true
+    · simp only [h2, if_true]
+      by_cases h3 : min (s.adrAckCnt + 1) 0xFFFFFFFF ≥ Gen.Session.ADR_ACK_LIMIT.toNat + Gen.Session.ADR_ACK_DELAY.toNat
+      · simp only [h3, if_true]
+        by_cases h4 : ((min (s.adrAckCnt + 1) 0xFFFFFFFF - Gen.Session.ADR_ACK_LIMIT.toNat) % Gen.Session.ADR_ACK_DELAY.toNat == 0) = true
+        · simp only [h4, if_true]
+          cases nextLowerDatarate r cfg.dataRate <;> rfl
+        · simp only [h4, Bool.false_eq_true, if_false]; rfl
+      · simp only [h3, if_false]; rfl
+    · simp only [h2, Bool.false_eq_true, if_false]; rfl
+
+theorem sessionHandleRx_sid (s : Session) (cfg : Config) (region : RegionState) (d : RxData) (mp : Nat) (snr : Int)
+    (ig : Bool) (o : RxOut) (s' : Session) (cfg' : Config) (region' : RegionState)
+    (h : sessionHandleRx s cfg region d mp snr ig = .ok (o, s', cfg', region')) : sid s' = sid s := by
+  unfold sessionHandleRx at h
+  by_cases hlen : d.len > mp + 5
+  · simp only [hlen, if_true] at h
+    cases ig
+    · simp only [Bool.false_eq_true, if_false, pure, Except.pure, Except.ok.injEq, Prod.mk.injEq] at h
+      obtain ⟨_, rfl, _, _⟩ := h
+      exact rx2Complete_sid s cfg region.id
+    · simp only [if_true, pure, Except.pure, Except.ok.injEq, Prod.mk.injEq] at h
+      obtain ⟨_, rfl, _, _⟩ := h
+      rfl
+  · simp only [hlen, if_false] at h
+    cases hn : nextFcntDown s.fcntDown d.fcnt16 with
+    | none =>
+      simp only [hn, pure, Except.pure, Except.ok.injEq, Prod.mk.injEq] at h
+      obtain ⟨_, rfl, _, _⟩ := h
+      rfl
+    | some N =>
+      simp only [hn] at h
+      by_cases hm : (d.micFcnt != some N) = true
+      · simp only [hm, if_true, pure, Except.pure, Except.ok.injEq, Prod.mk.injEq] at h
+        obtain ⟨_, rfl, _, _⟩ := h
+        rfl
+      · simp only [hm, Bool.false_eq_true, if_false] at h
+        obtain ⟨ctx, _, h⟩ := Except.bind_eq_ok h
+        cases hc : d.confirmed <;> cases ig <;> by_cases hx : (s.fcntUp == 0xFFFFFFFF) = true <;>
+          simp only [hc, hx, Bool.false_eq_true, if_false, if_true, pure, Except.pure, Except.ok.injEq,
+            Prod.mk.injEq] at h <;>
+          obtain ⟨_, rfl, _, _⟩ := h <;> rfl
+
+theorem prepareBuffer_sid (s : Session) (cfg : Config) (r : RegionId) (data : List Nat) (port : Nat) (conf : Bool)
+    (desc : UplinkDesc) (s' : Session) (h : prepareBuffer s cfg r data port conf = .ok (desc, s')) : sid s' = sid s := by
+  unfold prepareBuffer at h
+  simp only [pure, Except.pure] at h
+  repeat' split at h
+  all_goals (first | (simp only [Except.ok.injEq, Prod.mk.injEq] at h; obtain ⟨_, rfl⟩ := h; rfl) | cases h)
+
+/-- a joined MAC stays joined, with the same address and keys, through … any received frame -/
+theorem macHandleRx_sid (m : MacState) (s : Session) (hm : joinedWith m s) (v : RxView) (mp : Nat) (snr : Int) (cc : Bool)
+    (o : Option RxOut) (m' : MacState) (h : macHandleRx m v mp snr cc = .ok (o, m')) :
+    ∃ s', joinedWith m' s' ∧ sid s' = sid s := by
+  unfold macHandleRx at h
+  unfold joinedWith at hm
+  simp only [hm] at h
+  cases v with
+  | data d =>
+    simp only at h
+    obtain ⟨⟨out, s1, cfg1, reg1⟩, hs, h⟩ := Except.bind_eq_ok h
+    simp only [pure, Except.pure, Except.ok.injEq, Prod.mk.injEq] at h
+    obtain ⟨_, rfl⟩ := h
+    exact ⟨s1, rfl, sessionHandleRx_sid _ _ _ _ _ _ _ _ _ _ _ hs⟩
+  | garbage =>
+    simp only [pure, Except.pure, Except.ok.injEq, Prod.mk.injEq] at h
+    obtain ⟨_, rfl⟩ := h
+    exact ⟨s, hm, rfl⟩
+  | joinAccept j =>
+    simp only [pure, Except.pure, Except.ok.injEq, Prod.mk.injEq] at h
+    obtain ⟨_, rfl⟩ := h
+    exact ⟨s, hm, rfl⟩
+
+theorem window_sid (m : MacState) (s : Session) (hm : joinedWith m s) (f : Option (RxView × Int)) (mp : Nat)
+    (o : Option RxOut) (m' : MacState) (h : window m f mp = .ok (o, m')) : ∃ s', joinedWith m' s' ∧ sid s' = sid s := by
+  unfold window at h
+  cases f with
+  | none =>
+    simp only [pure, Except.pure, Except.ok.injEq, Prod.mk.injEq] at h
+    obtain ⟨_, rfl⟩ := h
+    exact ⟨s, hm, rfl⟩
+  | some f =>
+    obtain ⟨v, snr⟩ := f
+    simp only at h
+    obtain ⟨⟨ro, m1⟩, hrx, h⟩ := Except.bind_eq_ok h
+    obtain ⟨s1, hj1, hs1⟩ := macHandleRx_sid m s hm v mp snr false ro m1 hrx
+    have : m' = m1 := by
+      cases ro with
+      | none => simp only [pure, Except.pure, Except.ok.injEq, Prod.mk.injEq] at h; exact h.2.symm
+      | some ro =>
+        simp only at h
+        split at h <;> (simp only [pure, Except.pure, Except.ok.injEq, Prod.mk.injEq] at h; exact h.2.symm)
+    subst this
+    exact ⟨s1, hj1, hs1⟩
+
+theorem macRx2Complete_sid (m : MacState) (s : Session) (hm : joinedWith m s) :
+    ∃ s', joinedWith (macRx2Complete m).2 s' ∧ sid s' = sid s := by
+  unfold macRx2Complete joinedWith at *
+  simp only [hm]
+  exact ⟨_, rfl, rx2Complete_sid s m.cfg m.region.id⟩
+
+theorem classACycle_sid (m : MacState) (s : Session) (hm : joinedWith m s) (rx1 rx2 : Option (RxView × Int)) (mp1 mp2 : Nat)
+    (r : Response) (dl : Option (Nat × List Nat)) (m' : MacState) (h : classACycle m rx1 rx2 mp1 mp2 = .ok (r, dl, m')) :
+    ∃ s', joinedWith m' s' ∧ sid s' = sid s := by
+  unfold classACycle at h
+  obtain ⟨⟨o1, m1⟩, h1, h⟩ := Except.bind_eq_ok h
+  obtain ⟨s1, hj1, hs1⟩ := window_sid m s hm rx1 mp1 o1 m1 h1
+  cases o1 with
+  | some o =>
+    simp only [pure, Except.pure, Except.ok.injEq, Prod.mk.injEq] at h
+    obtain ⟨_, _, rfl⟩ := h
+    exact ⟨s1, hj1, hs1⟩
+  | none =>
+    simp only at h
+    obtain ⟨⟨o2, m2⟩, h2, h⟩ := Except.bind_eq_ok h
+    obtain ⟨s2, hj2, hs2⟩ := window_sid m1 s1 hj1 rx2 mp2 o2 m2 h2
+    cases o2 with
+    | some o =>
+      simp only [pure, Except.pure, Except.ok.injEq, Prod.mk.injEq] at h
+      obtain ⟨_, _, rfl⟩ := h
+      exact ⟨s2, hj2, by rw [hs2, hs1]⟩
+    | none =>
+      simp only [pure, Except.pure, Except.ok.injEq, Prod.mk.injEq] at h
+      obtain ⟨_, _, rfl⟩ := h
+      obtain ⟨s3, hj3, hs3⟩ := macRx2Complete_sid m2 s2 hj2
+      exact ⟨s3, hj3, by rw [hs3, hs2, hs1]⟩
+
+theorem faultedCycle_sid (m : MacState) (s : Session) (hm : joinedWith m s) (k : Nat) (rx1 rx2 : Option (RxView × Int))
+    (mp1 mp2 : Nat) (m' : MacState) (h : faultedCycle m k rx1 rx2 mp1 mp2 = .ok m') :
+    ∃ s', joinedWith m' s' ∧ sid s' = sid s := by
+  unfold faultedCycle at h
+  split at h
+  · cases Except.pure_eq_ok h; exact ⟨s, hm, rfl⟩
+  · obtain ⟨⟨o1, m1⟩, h1, h⟩ := Except.bind_eq_ok h
+    cases Except.pure_eq_ok h
+    exact window_sid m s hm rx1 mp1 o1 _ h1
+  · obtain ⟨⟨o1, m1⟩, h1, h⟩ := Except.bind_eq_ok h
+    obtain ⟨s1, hj1, hs1⟩ := window_sid m s hm rx1 mp1 o1 m1 h1
+    cases o1 with
+    | some o => cases Except.pure_eq_ok h; exact ⟨s1, hj1, hs1⟩
+    | none =>
+      simp only at h
+      obtain ⟨⟨o2, m2⟩, h2, h⟩ := Except.bind_eq_ok h
+      cases Except.pure_eq_ok h
+      obtain ⟨s2, hj2, hs2⟩ := window_sid m1 s1 hj1 rx2 mp2 o2 _ h2
+      exact ⟨s2, hj2, by rw [hs2, hs1]⟩
+
+theorem macSend_sid {σ} (g : Rng σ) (m : MacState) (s : Session) (hm : joinedWith m s) (data : List Nat) (port : Nat)
+    (conf : Bool) (rs rs' : σ) (o : Option SendOut) (m' : MacState)
+    (h : macSend g m data port conf rs = .ok (o, m', rs')) : ∃ s', joinedWith m' s' ∧ sid s' = sid s := by
+  unfold macSend at h
+  unfold joinedWith at hm
+  simp only [hm] at h
+  obtain ⟨⟨desc, s1⟩, hpb, h⟩ := Except.bind_eq_ok h
+  obtain ⟨dr, _, h⟩ := Except.bind_eq_ok h
+  obtain ⟨⟨tx, region, rs1⟩, _, h⟩ := Except.bind_eq_ok h
+  obtain ⟨pw, _, h⟩ := Except.bind_eq_ok h
+  obtain ⟨⟨rx1, rx2⟩, _, h⟩ := Except.bind_eq_ok h
+  simp only [pure, Except.pure, Except.ok.injEq, Prod.mk.injEq] at h
+  obtain ⟨_, rfl, _⟩ := h
+  exact ⟨s1, rfl, prepareBuffer_sid _ _ _ _ _ _ _ _ hpb⟩
+
+theorem macSetAdr_sid (m : MacState) (on : Bool) (s : Session) (hm : joinedWith m s) :
+    ∃ s', joinedWith (macSetAdr m on) s' ∧ sid s' = sid s := by
+  unfold macSetAdr joinedWith at *
+  cases on
+  · simp only [hm]; exact ⟨_, rfl, rfl⟩
+  · simp only [hm]; exact ⟨s, rfl, rfl⟩
+
+/-- **within a session, address and keys never change**: a step that is not a (re-)join leaves a
+joined MAC joined with the same DevAddr and the same key identities, and an uplink it hands to the
+radio carries that DevAddr -/
+theorem step_session_id {σ} (g : Rng σ) (m m' : MacState) (rs rs' : σ) (ev : Ev) (out : Out) (s : Session)
+    (hm : joinedWith m s) (hj : isJoin ev = false) (h : step g (m, rs) ev = .ok ((m', rs'), out)) :
+    (∃ s', joinedWith m' s' ∧ sid s' = sid s) ∧ ∀ o r d, out = .up o r d → o.frame.devAddr = s.devAddr := by
+  unfold step at h
+  cases ev with
+  | joinAbp da nwk app => simp [isJoin] at hj
+  | joinOtaa fault rx1 rx2 mp1 mp2 => simp [isJoin] at hj
+  | setAdr on =>
+    simp only [pure, Except.pure, Except.ok.injEq, Prod.mk.injEq] at h
+    obtain ⟨⟨rfl, _⟩, rfl⟩ := h
+    exact ⟨macSetAdr_sid m on s hm, fun o r d e => by cases e⟩
+  | setDr dr =>
+    simp only [pure, Except.pure, Except.ok.injEq, Prod.mk.injEq] at h
+    obtain ⟨⟨rfl, _⟩, rfl⟩ := h
+    exact ⟨⟨s, hm, rfl⟩, fun o r d e => by cases e⟩
+  | rxc v snr mp =>
+    simp only at h
+    obtain ⟨rf, _, h1⟩ := Except.bind_eq_ok h
+    obtain ⟨⟨o, m1⟩, hrx, h2⟩ := Except.bind_eq_ok h1
+    simp only [pure, Except.pure, Except.ok.injEq, Prod.mk.injEq] at h2
+    obtain ⟨⟨rfl, _⟩, rfl⟩ := h2
+    exact ⟨macHandleRx_sid m s hm v mp snr true o _ hrx, fun o r d e => by cases e⟩
+  | uplink data fport conf fault rx1 rx2 mp1 mp2 =>
+    simp only at h
+    obtain ⟨⟨o, m1, rs1⟩, hsend, h1⟩ := Except.bind_eq_ok h
+    clear h
+    obtain ⟨out1, s1f, ho, _, hda, _, _⟩ := macSend_fcnt g m s hm data fport conf rs rs1 o m1 hsend
+    obtain ⟨s1, hj1, hs1⟩ := macSend_sid g m s hm data fport conf rs rs1 o m1 hsend
+    subst ho
+    simp only at h1
+    cases fault with
+    | some k =>
+      simp only at h1
+      obtain ⟨m2, hfc, h2⟩ := Except.bind_eq_ok h1
+      simp only [pure, Except.pure, Except.ok.injEq, Prod.mk.injEq] at h2
+      obtain ⟨⟨rfl, _⟩, rfl⟩ := h2
+      obtain ⟨s2, hj2, hs2⟩ := faultedCycle_sid m1 s1 hj1 k rx1 rx2 mp1 mp2 m2 hfc
+      obtain ⟨s3, hj3, hs3⟩ := macRx2Complete_sid m2 s2 hj2
+      exact ⟨⟨s3, hj3, by rw [hs3, hs2, hs1]⟩, fun o r d e => by cases e; exact hda⟩
+    | none =>
+      simp only at h1
+      obtain ⟨⟨r, dl, m2⟩, hcy, h2⟩ := Except.bind_eq_ok h1
+      simp only [pure, Except.pure, Except.ok.injEq, Prod.mk.injEq] at h2
+      obtain ⟨⟨rfl, _⟩, rfl⟩ := h2
+      obtain ⟨s2, hj2, hs2⟩ := classACycle_sid m1 s1 hj1 rx1 rx2 mp1 mp2 r dl m2 hcy
+      exact ⟨⟨s2, hj2, by rw [hs2, hs1]⟩, fun o r d e => by cases e; exact hda⟩
+
+/-- … hence along every join-free stretch of a history: same DevAddr, same keys, on every uplink -/
+theorem history_session_id {σ} (g : Rng σ) (m : MacState) (rs : σ) (evs : List Ev) (ms' : MacState × σ) (outs : List Out)
+    (s : Session) (hm : joinedWith m s) (hj : ∀ ev ∈ evs, isJoin ev = false)
+    (h : run g (m, rs) evs = .ok (ms', outs)) :
+    (∃ s', joinedWith ms'.1 s' ∧ sid s' = sid s) ∧ ∀ o r d, Out.up o r d ∈ outs → o.frame.devAddr = s.devAddr := by
+  induction evs generalizing m rs outs s with
+  | nil =>
+    simp only [run, pure, Except.pure, Except.ok.injEq, Prod.mk.injEq] at h
+    obtain ⟨rfl, rfl⟩ := h
+    exact ⟨⟨s, hm, rfl⟩, fun o r d e => by cases e⟩
+  | cons ev rest ih =>
+    unfold run at h
+    obtain ⟨⟨⟨m1, rs1⟩, o⟩, hstep, h1⟩ := Except.bind_eq_ok h
+    obtain ⟨⟨ms2, os⟩, hrun, h2⟩ := Except.bind_eq_ok h1
+    simp only [pure, Except.pure, Except.ok.injEq, Prod.mk.injEq] at h2
+    obtain ⟨rfl, rfl⟩ := h2
+    obtain ⟨⟨s1, hj1, hs1⟩, hup⟩ := step_session_id g m m1 rs rs1 ev o s hm (hj ev List.mem_cons_self) hstep
+    obtain ⟨⟨s2, hj2, hs2⟩, hups⟩ := ih m1 rs1 os s1 hj1 (fun ev' he => hj ev' (List.mem_cons_of_mem _ he)) hrun
+    refine ⟨⟨s2, hj2, by rw [hs2, hs1]⟩, ?_⟩
+    intro so r d hmem
+    simp only [List.mem_cons] at hmem
+    rcases hmem with e | hmem
+    · exact hup so r d e.symm
+    · have := hups so r d hmem
+      have hd : s1.devAddr = s.devAddr := by
+        have := congrArg Prod.fst hs1; exact this
+      rw [this, hd]
+
+/-! ## the counter never wraps -/
+
+/-- the session counter fits 32 bits -/
+def Bounded (m : MacState) : Prop := ∀ s, m.st = .joined s → s.fcntUp ≤ 0xFFFFFFFF
+
+theorem bounded_of_joined {m : MacState} {s : Session} (hj : joinedWith m s) (h : s.fcntUp ≤ 0xFFFFFFFF) : Bounded m := by
+  intro s' hs'
+  unfold joinedWith at hj
+  rw [hj] at hs'
+  cases hs'
+  exact h
+
+theorem step_bounded {σ} (g : Rng σ) (m m' : MacState) (rs rs' : σ) (ev : Ev) (out : Out) (hb : Bounded m)
+    (h : step g (m, rs) ev = .ok ((m', rs'), out)) :
+    Bounded m' ∧ ∀ o r d, out = .up o r d → o.frame.fcnt ≤ 0xFFFFFFFF := by
+  have hfresh := join_starts_fresh g m m' rs rs' ev out h
+  unfold step at h
+  cases ev with
+  | joinAbp da nwk app =>
+    simp only [JoinPost] at hfresh
+    simp only [pure, Except.pure, Except.ok.injEq, Prod.mk.injEq] at h
+    obtain ⟨_, rfl⟩ := h
+    refine ⟨?_, fun o r d e => by cases e⟩
+    intro s hs; rw [hfresh] at hs; cases hs; simp [Session.new]
+  | joinOtaa fault rx1 rx2 mp1 mp2 =>
+    simp only [JoinPost] at hfresh
+    have hout : ∀ o r d, out ≠ .up o r d := by
+      simp only at h
+      obtain ⟨⟨o, m1, s1⟩, _, h⟩ := Except.bind_eq_ok h
+      cases fault with
+      | some k =>
+        simp only at h
+        obtain ⟨m2, _, h⟩ := Except.bind_eq_ok h
+        simp only [pure, Except.pure, Except.ok.injEq, Prod.mk.injEq] at h
+        obtain ⟨_, rfl⟩ := h
+        intro o r d e; cases e
+      | none =>
+        simp only at h
+        obtain ⟨⟨r, dl, m2⟩, _, h⟩ := Except.bind_eq_ok h
+        simp only [pure, Except.pure, Except.ok.injEq, Prod.mk.injEq] at h
+        obtain ⟨_, rfl⟩ := h
+        intro o r d e; cases e
+    refine ⟨?_, fun o r d e => absurd e (hout o r d)⟩
+    rcases hfresh with ⟨ot, hot⟩ | ⟨j, snr, _, _, hst⟩
+    · intro s hs; rw [hot] at hs; cases hs
+    · intro s hs; rw [hst] at hs; cases hs; simp [Session.new]
+  | setAdr on =>
+    simp only [pure, Except.pure, Except.ok.injEq, Prod.mk.injEq] at h
+    obtain ⟨⟨rfl, _⟩, rfl⟩ := h
+    refine ⟨?_, fun o r d e => by cases e⟩
+    intro s' hs'
+    obtain ⟨s, h1, h2⟩ := macSetAdr_st m on s' hs'
+    rw [← h2]; exact hb s h1
+  | setDr dr =>
+    simp only [pure, Except.pure, Except.ok.injEq, Prod.mk.injEq] at h
+    obtain ⟨⟨rfl, _⟩, rfl⟩ := h
+    exact ⟨fun s hs => hb s hs, fun o r d e => by cases e⟩
+  | rxc v snr mp =>
+    simp only at h
+    obtain ⟨rf, _, h⟩ := Except.bind_eq_ok h
+    obtain ⟨⟨o, m1⟩, hrx, h⟩ := Except.bind_eq_ok h
+    simp only [pure, Except.pure, Except.ok.injEq, Prod.mk.injEq] at h
+    obtain ⟨⟨rfl, _⟩, rfl⟩ := h
+    refine ⟨?_, fun o r d e => by cases e⟩
+    cases hst : m.st with
+    | joined s =>
+      obtain ⟨s1, hj1, _, hb1⟩ := macHandleRx_fcnt_mono m s hst v mp snr true o m1 hrx
+      exact bounded_of_joined hj1 (hb1 (hb s hst))
+    | otaa o' =>
+      have := macHandleRxc_notJoined m (by intro s e; rw [hst] at e; cases e) v mp snr o m1 hrx
+      subst this; exact hb
+    | unjoined =>
+      have := macHandleRxc_notJoined m (by intro s e; rw [hst] at e; cases e) v mp snr o m1 hrx
+      subst this; exact hb
+  | uplink data fport conf fault rx1 rx2 mp1 mp2 =>
+    simp only at h
+    obtain ⟨⟨o, m1, rs1⟩, hsend, hb'⟩ := Except.bind_eq_ok h
+    clear h
+    have h := hb'
+    clear hb'
+    simp only at h
+    by_cases hjn : ∃ s, m.st = .joined s
+    · obtain ⟨s, hst⟩ := hjn
+      have hs := hb s hst
+      obtain ⟨out1, s1, rfl, hf, _, hj1, hf1⟩ := macSend_fcnt g m s hst data fport conf rs rs1 o m1 hsend
+      simp only at h
+      cases fault with
+      | some k =>
+        simp only at h
+        obtain ⟨m2, hfc, h⟩ := Except.bind_eq_ok h
+        simp only [pure, Except.pure, Except.ok.injEq, Prod.mk.injEq] at h
+        obtain ⟨⟨rfl, _⟩, rfl⟩ := h
+        obtain ⟨s2, hj2, _, hb2⟩ := faultedCycle_fcnt_mono m1 s1 hj1 k rx1 rx2 mp1 mp2 m2 hfc
+        obtain ⟨s3, hj3, hc3⟩ := fault_fcnt m2 s2 hj2
+        have : s2.fcntUp ≤ 0xFFFFFFFF := hb2 (by omega)
+        refine ⟨bounded_of_joined hj3 (by rcases hc3 with ⟨a, b⟩ | ⟨a, b⟩ <;> omega), ?_⟩
+        intro o r d e; cases e; omega
+      | none =>
+        simp only at h
+        obtain ⟨⟨r, dl, m2⟩, hcy, h⟩ := Except.bind_eq_ok h
+        simp only [pure, Except.pure, Except.ok.injEq, Prod.mk.injEq] at h
+        obtain ⟨⟨rfl, _⟩, rfl⟩ := h
+        obtain ⟨s2, hj2, hc2⟩ := cycle_fcnt m1 s1 hj1 rx1 rx2 mp1 mp2 r dl m2 hcy
+        refine ⟨bounded_of_joined hj2 (by rcases hc2 with ⟨a, b, _⟩ | ⟨a, b, _⟩ <;> omega), ?_⟩
+        intro o r d e; cases e; omega
+    · have hnj : ∀ s, m.st ≠ .joined s := fun s e => hjn ⟨s, e⟩
+      obtain ⟨rfl, rfl⟩ := macSend_notJoined g m hnj data fport conf rs rs1 o m1 hsend
+      simp only [pure, Except.pure, Except.ok.injEq, Prod.mk.injEq] at h
+      obtain ⟨⟨rfl, _⟩, rfl⟩ := h
+      exact ⟨hb, fun o r d e => by cases e⟩
+
+/-- **the counter never wraps**: from any state whose counter fits 32 bits (the initial state, any
+fresh session) every uplink of every history carries a counter ≤ 2^32 − 1 — at 2^32 − 1 the device
+reports `SessionExpired` and the counter stands (`cycle_fcnt`, `fault_fcnt`) -/
+theorem history_fcnt_32bit {σ} (g : Rng σ) (m : MacState) (rs : σ) (evs : List Ev) (ms' : MacState × σ) (outs : List Out)
+    (hb : Bounded m) (h : run g (m, rs) evs = .ok (ms', outs)) :
+    ∀ o r d, Out.up o r d ∈ outs → o.frame.fcnt ≤ 0xFFFFFFFF := by
+  induction evs generalizing m rs outs with
+  | nil =>
+    simp only [run, pure, Except.pure, Except.ok.injEq, Prod.mk.injEq] at h
+    obtain ⟨_, rfl⟩ := h
+    intro o r d hm; cases hm
+  | cons ev rest ih =>
+    unfold run at h
+    obtain ⟨⟨⟨m1, rs1⟩, o⟩, hstep, h⟩ := Except.bind_eq_ok h
+    obtain ⟨⟨ms2, os⟩, hrun, h⟩ := Except.bind_eq_ok h
+    simp only [pure, Except.pure, Except.ok.injEq, Prod.mk.injEq] at h
+    obtain ⟨rfl, rfl⟩ := h
+    obtain ⟨hb1, hup⟩ := step_bounded g m m1 rs rs1 ev o hb hstep
+    intro so r d hm
+    simp only [List.mem_cons] at hm
+    rcases hm with e | hm
+    · exact hup so r d e.symm
+    · exact ih m1 rs1 os hb1 hrun so r d hm
+
+theorem init_bounded (r : RegionState) (maxPower : Nat) (gain : Int) : Bounded (MacState.init r maxPower gain) := by
+  intro s hs; cases hs
+
+
+/-- the boundary of the claim: a device that is used on after it reported expiry sends counter
+2^32 − 1 again (the application must re-join; the stack does not refuse the `send`) -/
+theorem send_after_expiry_reuses {σ} (g : Rng σ) (m : MacState) (s : Session) (hm : joinedWith m s)
+    (hx : s.fcntUp = 0xFFFFFFFF) (data : List Nat) (port : Nat) (conf : Bool) (rs rs' : σ) (o : Option SendOut) (m' : MacState)
+    (h : macSend g m data port conf rs = .ok (o, m', rs')) : ∃ out, o = some out ∧ out.frame.fcnt = 0xFFFFFFFF := by
+  obtain ⟨out, _, ho, hf, _⟩ := macSend_fcnt g m s hm data port conf rs rs' o m' h
+  exact ⟨out, ho, by rw [hf, hx]⟩
+
 /-! non-vacuity -/
 def cfg0 : Config :=
   { dataRate := 0, rx1Delay := 1000, txPower := none, rx1DrOffset := 0, rx2DataRate := none, rx2Frequency := none, adrEnabled := true }
 example : (rx2Complete (Session.new 1 1 2) cfg0 .EU868).2.1.fcntUp = 1 := by decide
 example : (rx2Complete { Session.new 1 1 2 with fcntUp := 0xFFFFFFFF } cfg0 .EU868).1 = .sessionExpired := by decide
 
+def lcg : Rng Nat := fun x => ((x * 1103515245 + 12345) / 65536, x * 1103515245 + 12345)
+
+/-- ABP, three uplinks (a confirmed downlink in RX1, a radio fault after one window, a timeout), a
+Class C downlink in between, then an OTAA re-join and one more uplink -/
+def demoHistory : List Ev :=
+  [ .joinAbp 7 1 2,
+    .uplink [1] 1 true none (some (.data { len := 14, confirmed := true, fcnt16 := 3, micFcnt := some 3, fopts := [], fport := some 2, payload := [5] }, 4)) none 250 250,
+    .rxc (.data { len := 14, confirmed := false, fcnt16 := 4, micFcnt := some 4, fopts := [0x06], fport := none, payload := [] }) 0 250,
+    .uplink [2] 1 false (some 1) (some (.garbage, 0)) none 250 250,
+    .uplink [] 0 false none none none 250 250,
+    .joinOtaa none none (some (.joinAccept { micOk := true, devAddr := 9, dlSettings := 0, rxDelay := 1, cfList := none, nwkKey := 5, appKey := 6 }, 1)) 250 250,
+    .uplink [3] 3 false none none none 250 250 ]
+
+def upFcnts (outs : List Out) : List (Nat × Nat) :=
+  outs.filterMap (fun o => match o with | .up so _ _ => some (so.frame.devAddr, so.frame.fcnt) | _ => none)
+
+/-- the run exists, and its uplinks carry (DevAddr, FCnt) = (7,0) (7,2) (7,3) | (9,0): the Class C
+downlink and the accepted RX1 downlink each advanced the counter, the faulted uplink burnt one -/
+example : (run lcg (MacState.init (RegionState.init .EU868) 14 0, 1) demoHistory).toOption.map (fun r => upFcnts r.2)
+    = some [(7, 0), (7, 2), (7, 3), (9, 0)] := by decide +kernel
+
 end C06
 
+#print axioms C06.history_fcnt_strict
+#print axioms C06.history_fcnt_from
+#print axioms C06.history_no_counter_reuse
+#print axioms C06.history_fcnt_32bit
+#print axioms C06.join_starts_fresh
+#print axioms C06.step_session_id
+#print axioms C06.history_session_id
+#print axioms C06.send_after_expiry_reuses
 #print axioms C06.rx2Complete_fcnt
 #print axioms C06.handleRx_fcnt
 #print axioms C06.send_uses_fcnt
